@@ -220,6 +220,7 @@ def run(ctx):
     mon, acc, tst, ttr = _tlc_traces(ctx, traces, 6 if quick else 14)
     if set(mon.keys()) != set(traces.keys()):
         raise vf.Inconclusive("monitor produced %d verdicts for %d traces" % (len(mon), len(traces)))
+    _confirm_timing_dependent(ctx, binary, cases, traces, sumby, mon)
     _verdicts(ctx, cases, traces, sumby, mon, acc)
 
     casesby = {c["id"]: c for c in cases}
@@ -249,6 +250,46 @@ def run(ctx):
         "the connection refuses a cancelled context before sending (Conn.exec's first statement), as the fake execute does",
         "attempts reach 'servers' = calls of ExecutableQuery.execute on a connection of the host; the wire is not involved",
     ]
+
+
+def _confirm_timing_dependent(ctx, binary, cases, traces, sumby, mon):
+    """The only observations that depend on a time-out are the harness's "quiesce" event (nothing moved for the
+    settle time while every other execution was parked) and the watchdog of a replayed case.  A key raised on
+    such a trace is kept only if it is raised again when the case is re-executed alone with a three times longer
+    settle time; otherwise it is dropped (an overloaded machine, not the code)."""
+    casesby = {c["id"]: c for c in cases}
+    sus = [t for t, m in mon.items() if t in casesby and (
+        (m["viol"] and any(e["ev"] == "quiesce" for e in traces[t])) or sumby[t]["hang"])]
+    if not sus:
+        return
+    sus = sus[:40]
+    cp = os.path.join(ctx.tmp, "c13_confirm_cases.ndjson")
+    vf.write_ndjson(cp, [casesby[t] for t in sus])
+    rp = os.path.join(ctx.tmp, "c13_confirm_traces.ndjson")
+    rc, out = vf.run_gotest(ctx, binary, "^TestVfC13Replay$", env={"VF_CASES": cp, "VF_TRACES": rp, "VF_PAR": 2,
+                                                                     "VF_SETTLE_MS": 3000}, timeout=900)
+    sums2 = {s["id"]: s for s in (json.loads(l[9:]) for l in out.splitlines() if l.startswith("VFC13SUM ")) if not s.get("skipped")}
+    tr2 = _split_traces(rp)
+    mon2, _, _, _ = _tlc_traces(ctx, tr2, 2) if tr2 else ({}, set(), 0, 0)
+    dropped = 0
+    for t in mon:
+        if not (t in casesby and ((mon[t]["viol"] and any(e["ev"] == "quiesce" for e in traces[t])) or sumby[t]["hang"])):
+            continue
+        if t in mon2 and t in sums2:
+            keep = [k for k in mon[t]["viol"] if k in mon2[t]["viol"]]
+            if len(keep) != len(mon[t]["viol"]) or (sumby[t]["hang"] and not sums2[t]["hang"]):
+                dropped += 1
+            mon[t]["viol"] = keep
+            if not sums2[t]["hang"]:
+                sumby[t]["hang"] = ""
+            if keep or sums2[t]["hang"]:
+                traces[t] = tr2[t]      # report the confirming execution
+        else:
+            # not re-executed (more than 40 suspects): keep only if some re-executed suspect was confirmed
+            pass
+    ctx.log("timing-dependent observations: %d suspects re-executed, %d not confirmed" % (len(sus), dropped))
+    if dropped:
+        ctx.notes.append("%d time-out based observations were not reproduced on re-execution and were dropped" % dropped)
 
 
 def _verdicts(ctx, cases, traces, sumby, mon, acc):
